@@ -72,7 +72,12 @@ Cfgs == << Cfg("hq_lossy",     TinyVP(0, 0), 0, 3, 4, 4, 1, 0, 2, 1, 0, 0, 24, 0
            Cfg("hq_fields",    TinyVP(1, 1), 1, 3, 4, 4, 1, 0, 2, 1, 0, 1, 0, 0),
            Cfg("hq_fragments", TinyVP(0, 0), 0, 3, 4, 4, 1, 0, 2, 1, 1, 0, 24, 0),
            Cfg("hq_asym",      TinyVP(0, 0), 0, 3, 1, 1, 1, 1, 1, 1, 0, 1, 0, 0),
+           \* different wavelets in the two directions: the stream CODES wavelet_index_ho (asym_transform_index_flag)
+           Cfg("hq_asym_wavelets", TinyVP(0, 0), 0, 3, 3, 1, 1, 0, 1, 1, 0, 1, 0, 0),
            Cfg("hq_custom_qm", TinyVP(1, 0), 0, 3, 1, 1, 1, 0, 1, 2, 0, 0, 32, 1),
+           \* a quantisation matrix IS supplied (so the stream signals a custom matrix) but its values are the
+           \* Annex D defaults for this transform: "custom" is about what is coded, not about the values
+           Cfg("hq_explicit_default_qm", TinyVP(1, 0), 0, 3, 1, 1, 1, 0, 1, 2, 0, 0, 32, 1),
            Cfg("hq_explicit",  ExplicitVP,   0, 3, 4, 4, 1, 0, 2, 1, 0, 1, 0, 0) >>
 
 FT(c) == [profile |-> c.profile, wavelet_index |-> c.wavelet_index, dwt_depth |-> c.dwt_depth,
